@@ -279,6 +279,46 @@ def check_mask_reject(case, ctx):
     raise Violation("invalid distance_mask call (%s) accepted: %r" % (case["kind"], res))
 
 
+# ---------------------------------------------------------------- large inputs (vectorised brute force)
+@st.composite
+def large_cases(draw):
+    return dict(n=draw(st.sampled_from([1500, 4000, 9000])), m=draw(st.sampled_from([300, 1000])), k=draw(st.sampled_from([1, 1, 3, 10])), seed=draw(st.integers(0, 10**6)),
+                reduction=draw(st.sampled_from(["mean", "median", "max"])), offset=draw(st.sampled_from([0.0, 0.0, 512000.0, -7.52e6])), maxdist=draw(st.sampled_from([0.05, 0.2, 1.0])))
+
+
+def check_large(case, ctx):
+    rng = np.random.RandomState(case["seed"])  # a pure function of the generated case
+    n, m, k, off = case["n"], case["m"], case["k"], case["offset"]
+    d = off + rng.uniform(0, 10, (n, 2))
+    q = off + rng.uniform(-1, 11, (m, 2))
+    vals = np.round(rng.uniform(-100, 100, n) * 16) / 16
+    D = dist_matrix(q, d)
+    order = np.argsort(D, axis=1, kind="stable")[:, :k + 1]
+    ds = np.take_along_axis(D, order, axis=1)
+    clear = (ds[:, k] - ds[:, k - 1]) > 1e-9 * ds[:, k] if k < n else np.ones(m, dtype=bool)
+    exp = REDS[case["reduction"]](vals[order[:, :k]], axis=1)
+    kn = vd.KNeighbors(k=k, reduction=REDS[case["reduction"]]).fit((d[:, 0], d[:, 1]), vals)
+    got = np.asarray(kn.predict((q[:, 0], q[:, 1])))
+    bad = clear & (np.abs(got - exp) > 1e-12 * np.maximum(np.abs(exp), 1.0))
+    if bad.any():
+        i = int(np.argmax(bad))
+        raise Violation("KNeighbors(k=%d, %s) on %d points: query %d %r predicted %r, brute force gives %r" % (k, case["reduction"], n, i, q[i].tolist(), float(got[i]), float(exp[i])))
+    # distance_mask and median_distance on the same clouds
+    mask = np.asarray(vd.distance_mask((d[:, 0], d[:, 1]), case["maxdist"], coordinates=(q[:, 0], q[:, 1])))
+    near = D.min(axis=1)
+    sure = np.abs(near - case["maxdist"]) > 1e-9 * case["maxdist"]
+    ctx.check(np.array_equal(mask[sure], (near <= case["maxdist"])[sure]), "distance_mask over %d data and %d query points disagrees with the brute-force nearest distance", n, m)
+    sub_ = d[:1500]
+    DD = dist_matrix(sub_, sub_)
+    np.fill_diagonal(DD, np.inf)
+    kk = min(k, 5)
+    exp_md = np.median(np.sort(DD, axis=1)[:, :kk], axis=1)
+    got_md = np.asarray(vd.median_distance((sub_[:, 0], sub_[:, 1]), k_nearest=kk))
+    ctx.check(np.all(np.abs(got_md - exp_md) <= 1e-12 * np.maximum(exp_md, 1e-300)), "median_distance over %d points disagrees with brute force", sub_.shape[0])
+    ctx.label("n%d" % n, "k%d" % k, case["reduction"], "utm" if off else "local")
+    ctx.nt(True)
+
+
 SUBCHECKS = [
     Sub("kneighbors", check_knn, strategy=knn_cases(), quick=500, thorough=3000, shards_quick=2,
         doc="KNeighbors prediction = reduction of the values of exactly the k nearest data points (brute-force distance matrix), query shape kept"),
@@ -288,4 +328,6 @@ SUBCHECKS = [
         doc="mask true exactly where the nearest (projected) data point is within maxdist; grid form blanks exactly the False cells"),
     Sub("mask_rejects", check_mask_reject, strategy=mask_reject_cases(), quick=20, thorough=40, shards_thorough=1,
         doc="distance_mask without coordinates or grid, or with mismatching coordinate shapes, is rejected"),
+    Sub("large", check_large, strategy=large_cases(), quick=8, thorough=40, heavy=True,
+        doc="KNeighbors / distance_mask / median_distance on 1 500 - 9 000 data points (also at UTM-sized offsets) against a vectorised brute-force distance matrix"),
 ]
